@@ -1,13 +1,17 @@
 (* C18 — the fields the translator is EXPECTED to report as having an
-   unprotected conflicting access pair on the current tree: the recorded known
-   findings (known_findings.json, ids F-C18b/c/d). Anything else appearing in
-   [racy_fields accesses], or one of these disappearing, makes
-   [C18_tree_racy_fields] fail to compile. *)
+   unprotected conflicting access pair on the current tree: the recorded open
+   known findings (known_findings.d/C18.json, id F-C18b). Anything else appearing
+   in [racy_fields accesses], or this one disappearing, makes
+   [C18_tree_racy_fields] fail to compile.
+   History: "routing.StreamsData.stream" (F-C18c) and
+   "routing.StreamsData.flowValidator" (F-C18d) were listed here until
+   patches/C18/fix-F-C18c.patch (pointer guarded by StreamsData.streamLock, read
+   through getStream under RLock, published by setStream under Lock) and
+   fix-F-C18d.patch (field replaced by a local variable) repaired them. On a tree
+   without those two patches the theorem does not compile: that is the report. *)
 From Coq Require Import List String.
 Import ListNotations.
 Open Scope string_scope.
 
 Definition expected_racy : list string :=
-  [ "routing.StreamsData.flowValidator";
-    "routing.StreamsData.stream";
-    "streams/lunar-context.lunarContext.transactionalContext" ].
+  [ "streams/lunar-context.lunarContext.transactionalContext" ].
